@@ -7,6 +7,7 @@
 mod alpha;
 mod astobs;
 mod input;
+mod pairs;
 mod sat;
 mod types;
 mod uni;
@@ -42,6 +43,7 @@ fn main() {
             "sat" => sat::run_case(&u, &case, &["desc", "plan"]),
             "ast" => astobs::run_case(&u, &case),
             "types" => types::run_case(&case),
+            "pairs" => pairs::run_case(&u, &case),
             _ => {
                 eprintln!("unknown command {}", cmd);
                 std::process::exit(2);
